@@ -18,8 +18,8 @@ did exactly what the implementation model predicts on that tuple; anything else 
 
 fuse_hardswish_rules (family "hardswish", session 6) replaces a chain by a float kernel: its before/after relation is equality up to
 the kernel's round-off (ROUNDOFF), far below the eps class of constants (5e-5).
-Not covered (float kernels, would need tolerance-based replay): remove_optional_bias_from_qlinear_conv_rule,
-onnxscript.rewriter.rules.fusion.* (layer norm, rms norm, rotary embedding, gqa).
+remove_optional_bias_from_qlinear_conv_rule is in the optional_bias family (uint8 hosts at scales 1.0, exact).
+Not covered (float kernels, would need tolerance-based replay): onnxscript.rewriter.rules.fusion.* (layer norm, rms norm, rotary embedding, gqa).
 
 VERIF_C05_MAX=<n> (optional, experiments): replay a seeded sample of n tuples.
 VERIF_C05_FAMILIES=a,b (optional): restrict the replay to some families.
@@ -382,6 +382,16 @@ def build_optional_bias(p, osh, aux):
 
     h = Host()
     bias = np.array([0, 0] if p["bias"] == "zero" else [0, 5], dtype=np.float32)
+    if p["op"] == "QLinearConv":
+        xzp, yzp = (1, 2) if p["tb"] else (0, 0)
+        h.inp("x", "u8", np.arange(1, 7, dtype=np.uint8).reshape(1, 2, 3))
+        h.operand("w", "init", "u8", np.array([1, 0, 2, 3], dtype=np.uint8).reshape(2, 2, 1))
+        for name, dt, v in (("xs", "f32", 1.0), ("xzp", "u8", xzp), ("ws", "f32", 1.0), ("wzp", "u8", 0), ("ys", "f32", 1.0), ("yzp", "u8", yzp)):
+            h.operand(name, "init", dt, np.asarray(v))
+        h.operand("bias", p["bkind"], "i32", bias.astype(np.int32), alt=np.array([1, 1], dtype=np.int32))
+        h.node("QLinearConv", ["x", "xs", "xzp", "w", "ws", "wzp", "ys", "yzp", "bias"], ["y"])
+        h.out("y", "u8", list(osh))
+        return h, [m.remove_optional_bias_from_qlinear_conv_rule]
     if p["op"] == "Gemm":
         h.inp("x", "f32", np.array([1, 2, 3, 4], dtype=np.float32).reshape(2, 2))
         h.operand("w", "init", "f32", np.array([1, -1, 2, 3], dtype=np.float32).reshape(2, 2))
@@ -888,6 +898,8 @@ ATTR_TABLE = {
                                "transB": "swept"},
                       "Conv": {"auto_pad": "copied:all attributes are passed on", "dilations": "copied:same", "group": "copied:same",
                                "kernel_shape": "copied:same", "pads": "copied:same", "strides": "swept"},
+                      "QLinearConv": {"auto_pad": "copied:all attributes are passed on", "dilations": "copied:same", "group": "copied:same",
+                                      "kernel_shape": "copied:same", "pads": "copied:same", "strides": "copied:same"},
                       "ConvTranspose": {"auto_pad": "copied:all attributes are passed on", "dilations": "copied:same", "group": "copied:same",
                                         "kernel_shape": "copied:same", "output_padding": "copied:same", "output_shape": "copied:same",
                                         "pads": "copied:same", "strides": "swept"}},
